@@ -153,10 +153,10 @@ def check_text(acc: core.Acc, text: str, opts: dict, all_chunkings: bool = True)
 # ---------------------------------------------------------------------------------------------
 # Keyvalues.parse
 
-KV_ITEMS = ['"a"', '"b"', 'a', '{', '}', '\n', '[f]', '[!f]', '"', '\\', '//c', ' ']
+KV_ITEMS = ['"a"', '"b"', 'a', '{', '}', '\n', '[f]', '[!f]', '[]', '"', '\\', '//c', ' ']
 # coarser, line-level items: reach flag-replacement and skipped-block logic within a small depth
 KV_LINES = ['"a" "b"\n', '"a" "b" [f]\n', '"a" "b" [!f]\n', '"a"\n', '"a" [f]\n', '"a" [!f]\n', '{\n', '}\n',
-            '"a" {', '}', '"b" "c" "d"\n']
+            '"a" {', '}', '"b" "c" "d"\n', '"a" "b" []\n', '"a" [!]\n']
 KV_OPTS = ['newline_keys', 'newline_values', 'allow_escapes', 'single_line', 'single_block']
 KV_DEFAULT = {'newline_keys': False, 'newline_values': True, 'allow_escapes': True, 'single_line': False,
               'single_block': False}
